@@ -38,3 +38,18 @@ CLAIMED["C13"] = {
   "note": "Only the support inclusion: value preservation, strict/safe duality, text and datatype-display round trips are value-level and not decided; pairs whose castability depends on payloads (nested/dictionary children) are reported as unknown, not judged.",
   "technique": "three-valued evaluation of two dispatch tables over the constructor grid (MIR, custom rustc driver)",
 }
+CLAIMED["C04"] = {
+  "text": "Decides table-agreement and bookkeeping clauses of C04: for each of the 41 DataType constructors the IPC array reader (create_array) and the projection skipper (skip_field) are evaluated on the same dispatch and must consume the same abstract number of field nodes, buffers and child recursions (constant-range loops multiplied out) - a one-buffer disagreement shifts every later column and only shows with projections over mixed schemas; every path of DictionaryTracker::insert/insert_column that tells the writer to (re)send a dictionary has recorded it in `written`; the dictionary reader consults isDelta.",
+  "note": "Does not decide byte-level round-trip equality, slicing/truncation arithmetic, compression or Flight splitting. Counts are abstract (static call sites; non-constant loops are 'variadic' on both sides).",
+  "technique": "dispatch-table evaluation with abstract call counting (sibling agreement) + must-pass-through on MIR",
+}
+CLAIMED["C07"] = {
+  "text": "Decides structural clauses of C07 on every path of the two sibling value encoders and the column writer: bloom-filter insertion exists in both encoders and is control dependent on the bloom_filter field only (never on a statistics setting), both update min/max; a truncated maximum is always produced by increment (never a bare prefix) and a truncated minimum never incremented; the exact-flags derive from the matching truncation; fixed-length (Decimal/Float16) bounds are truncated only behind can_truncate_value() in statistics and page index; NaN is tested before any min/max comparison.",
+  "note": "Does not decide comparison correctness per sort order, increment carry logic, Sbbf hashing, row/null counts. Trusts rustc MIR.",
+  "technique": "control-dependence and must-pass-through on MIR, field-effect sets, sibling agreement",
+}
+CLAIMED["C14"] = {
+  "text": "Decides necessary conditions of chunk independence on the decoder state machines: the emitting method of each push decoder re-initialises every accumulation field (8 reset methods, field sets computed from MIR writes incl. &mut borrows); zero-copy fast paths of the IPC stream decoder are control dependent on the internal buffer being empty; after every completed IPC message the next state is stored before Ok can be returned; the CSV header-validation flag is cleared only after validation succeeded; finish/flush of CSV, JSON and IPC reject on the partial-record state.",
+  "note": "Chunk independence itself is a relation over all chunkings and is not decided; only state-reset / guard / ordering conditions whose violation makes the outcome depend on where a chunk boundary falls.",
+  "technique": "field-effect analysis (EFF) + control dependence + must-pass-through on MIR",
+}
